@@ -46,47 +46,76 @@ func c15Try(f func()) (panicked bool, val interface{}, stack string) {
 
 // ---- log capture (both sides report dropped datagrams only through the standard logger) ---------------------------------
 
+var c15Markers = []string{"send: ", "dnsRespToUDPResp err", "resp WireFormat", "RemoveFormat err", "craftResponse err", "NXDOMAIN: base32",
+	"MessageFromWireFormat: ", "cannot parse DNS query"}
+
 type c15LogSink struct {
-	mu    sync.Mutex
-	lines []string
-	total int
+	mu     sync.Mutex
+	cnt    map[string]int
+	recent map[string][]string
+	total  int
 }
 
 func (l *c15LogSink) Write(p []byte) (int, error) {
+	line := strings.TrimSpace(string(p))
 	l.mu.Lock()
 	l.total++
-	if len(l.lines) < 5000 {
-		l.lines = append(l.lines, strings.TrimSpace(string(p)))
+	if l.cnt == nil {
+		l.cnt, l.recent = map[string]int{}, map[string][]string{}
+	}
+	for _, m := range c15Markers {
+		if i := strings.Index(line, m); i >= 0 {
+			l.cnt[m]++
+			r := append(l.recent[m], line[i:])
+			if len(r) > 40 {
+				r = r[len(r)-40:]
+			}
+			l.recent[m] = r
+		}
 	}
 	l.mu.Unlock()
 	return len(p), nil
 }
 
-func (l *c15LogSink) count(sub string) int {
+// count returns how many log lines so far contained the marker (must be one of c15Markers).
+func (l *c15LogSink) count(marker string) int {
+	l.mu.Lock()
+	defer l.mu.Unlock()
+	return l.cnt[marker]
+}
+
+// last returns up to max of the most recent lines containing the marker.
+func (l *c15LogSink) last(marker string, max int) []string {
+	l.mu.Lock()
+	defer l.mu.Unlock()
+	r := l.recent[marker]
+	if len(r) > max {
+		r = r[len(r)-max:]
+	}
+	return append([]string(nil), r...)
+}
+
+type c15Marks map[string]int
+
+func (l *c15LogSink) marks() c15Marks {
+	l.mu.Lock()
+	defer l.mu.Unlock()
+	m := c15Marks{}
+	for _, k := range c15Markers {
+		m[k] = l.cnt[k]
+	}
+	return m
+}
+
+// since returns how many lines with one of the markers were logged after the marks were taken.
+func (l *c15LogSink) since(m c15Marks, markers ...string) int {
 	l.mu.Lock()
 	defer l.mu.Unlock()
 	n := 0
-	for _, s := range l.lines {
-		if strings.Contains(s, sub) {
-			n++
-		}
+	for _, k := range markers {
+		n += l.cnt[k] - m[k]
 	}
 	return n
-}
-
-func (l *c15LogSink) matching(sub string, max int) []string {
-	l.mu.Lock()
-	defer l.mu.Unlock()
-	var out []string
-	for _, s := range l.lines {
-		if strings.Contains(s, sub) && len(out) < max {
-			if i := strings.Index(s, sub); i > 0 {
-				s = s[i:]
-			}
-			out = append(out, s)
-		}
-	}
-	return out
 }
 
 var c15Logs = &c15LogSink{}
@@ -298,6 +327,7 @@ func TestVerifC15NamePacking(t *testing.T) {
 			for len(pc.QueuePacketConn.OutgoingQueue(c15PeerAddr)) > 0 { // nothing pending upstream
 				<-pc.QueuePacketConn.OutgoingQueue(c15PeerAddr)
 			}
+			parseErrsBefore := c15Logs.count("MessageFromWireFormat: ")
 			conn.reads <- wire
 			type rr struct {
 				b    []byte
@@ -322,9 +352,9 @@ func TestVerifC15NamePacking(t *testing.T) {
 					rec.Distinct("nontrivial", desc)
 				}
 			case <-time.After(30 * time.Second):
-				if k := c15Logs.count("MessageFromWireFormat: "); k > 0 {
+				if c15Logs.count("MessageFromWireFormat: ") > parseErrsBefore {
 					rec.Violation("namepacking:downstream:answer-not-parsable", "the answer the responder produced is refused by the requester's parser",
-						map[string]interface{}{"case": desc, "log": c15Logs.matching("MessageFromWireFormat: ", 3), "wire_len": len(wire)})
+						map[string]interface{}{"case": desc, "log": c15Logs.last("MessageFromWireFormat: ", 3), "wire_len": len(wire)})
 				} else {
 					rec.Inconclusive("answer not delivered within 30 s", desc)
 				}
@@ -351,10 +381,62 @@ func c15ShortName(q dns.Message) string {
 
 // ---- exchange ---------------------------------------------------------------------------------------------------------------
 
+// c15Tap wraps the responder's own socket (an interface field of Responder) and counts the datagrams that really crossed it.
+// This is the observation point that tells "the encoder refused the value" (nothing was put on the wire) from "the decoder
+// refused an encoding that was put on the wire".
+type c15Tap struct {
+	net.PacketConn
+	mu              sync.Mutex
+	reqs            int // datagrams received
+	answers         int // datagrams sent
+	answersWithData int // sent, RCODE 0, one TXT answer with a non-empty payload
+}
+
+func (t *c15Tap) ReadFrom(p []byte) (int, net.Addr, error) {
+	n, a, err := t.PacketConn.ReadFrom(p)
+	if err == nil {
+		t.mu.Lock()
+		t.reqs++
+		t.mu.Unlock()
+	}
+	return n, a, err
+}
+
+func (t *c15Tap) WriteTo(p []byte, a net.Addr) (int, error) {
+	withData := false
+	if m, err := dns.MessageFromWireFormat(p); err == nil && m.Rcode() == dns.RcodeNoError && len(m.Answer) == 1 && m.Answer[0].Type == dns.RRTypeTXT {
+		if b, err := dns.DecodeRDataTXT(m.Answer[0].Data); err == nil && len(b) > 0 {
+			withData = true
+		}
+	}
+	t.mu.Lock()
+	t.answers++
+	if withData {
+		t.answersWithData++
+	}
+	t.mu.Unlock()
+	return t.PacketConn.WriteTo(p, a)
+}
+
+type c15TapMarks struct{ reqs, answers, answersWithData int }
+
+func (t *c15Tap) marks() c15TapMarks {
+	t.mu.Lock()
+	defer t.mu.Unlock()
+	return c15TapMarks{t.reqs, t.answers, t.answersWithData}
+}
+
+// since returns what crossed the socket after the marks were taken.
+func (t *c15Tap) since(m c15TapMarks) c15TapMarks {
+	n := t.marks()
+	return c15TapMarks{n.reqs - m.reqs, n.answers - m.answers, n.answersWithData - m.answersWithData}
+}
+
 type c15Server struct {
 	dom    string
 	domain dns.Name
 	r      *Responder
+	tap    *c15Tap
 	addr   string
 	pub    []byte
 
@@ -373,7 +455,9 @@ func c15StartServer(t *testing.T, dom string) *c15Server {
 	if err != nil {
 		t.Fatal(err)
 	}
-	s := &c15Server{dom: dom, domain: r.domain, r: r, addr: r.transport.LocalAddr().String(), pub: encryption.PubkeyFromPrivkey(priv),
+	tap := &c15Tap{PacketConn: r.transport}
+	r.transport = tap
+	s := &c15Server{dom: dom, domain: r.domain, r: r, tap: tap, addr: tap.LocalAddr().String(), pub: encryption.PubkeyFromPrivkey(priv),
 		expected: map[string][]byte{}, calls: map[string]int{}}
 	// NOTE: the responder is deliberately never closed: after Close, RecvAndRespond spins on the net.Error forever.
 	go r.RecvAndRespond(func(b []byte) ([]byte, error) {
@@ -404,6 +488,8 @@ type c15Call struct {
 	payload  []byte
 	response []byte
 	reqFits  bool
+	marks    c15Marks    // log counters when the call was started
+	tmarks   c15TapMarks // datagram counters of the responder's socket when the call was started
 	done     chan struct{}
 	res      []byte
 	err      error
@@ -412,7 +498,7 @@ type c15Call struct {
 
 func (s *c15Server) start(rq *requester.Requester, desc string, payload, response []byte) *c15Call {
 	c := &c15Call{s: s, rq: rq, desc: desc, payload: payload, response: response, done: make(chan struct{}),
-		reqFits: c15FitsName(c15NoiseOverhead+len(payload), s.domain)}
+		reqFits: c15FitsName(c15NoiseOverhead+len(payload), s.domain), marks: c15Logs.marks(), tmarks: s.tap.marks()}
 	s.mu.Lock()
 	s.expected[string(payload)] = response
 	delete(s.calls, string(payload))
@@ -427,10 +513,20 @@ func (s *c15Server) start(rq *requester.Requester, desc string, payload, respons
 }
 
 func (c *c15Call) finished(wait time.Duration) bool {
+	if wait <= 0 {
+		select {
+		case <-c.done:
+			return true
+		default:
+			return false
+		}
+	}
+	tm := time.NewTimer(wait)
+	defer tm.Stop()
 	select {
 	case <-c.done:
 		return true
-	case <-time.After(wait):
+	case <-tm.C:
 		return false
 	}
 }
@@ -441,28 +537,58 @@ func (c *c15Call) callbackCalls() int {
 	return c.s.calls[string(c.payload)]
 }
 
-// judge evaluates a finished call.
-func (c *c15Call) judge(rec *kit.Rec) {
-	reqClass := "request-fits-a-name"
-	if !c.reqFits {
-		reqClass = "request-beyond-a-name"
+func (c *c15Call) reqClass() string {
+	if c.reqFits {
+		return "request-fits-a-name"
 	}
+	return "request-beyond-a-name"
+}
+
+// judge evaluates a finished call.  exclusive = nothing else used this server while the call ran, so every datagram that crossed
+// the responder's socket since the call started belongs to it.
+func (c *c15Call) judge(rec *kit.Rec, exclusive bool) {
+	reqClass := c.reqClass()
 	if c.panicked != "" {
 		rec.Violation("exchange:panic:"+reqClass, "RequestAndRecv panicked", map[string]interface{}{"case": c.desc, "panic": c.panicked})
 		return
 	}
 	calls := c.callbackCalls()
 	if c.err != nil {
-		// a refusal is acceptable whatever the size; but the responder must not have been handed a different request
+		// A refusal by an ENCODER is acceptable whatever the size: the requester refusing to build the request, or the responder
+		// declining to carry the callback's value (it then sends an answer without data).  A refusal by a DECODER of something
+		// its peer encoded without error and put on the wire is not.
+		if exclusive {
+			x := c.s.tap.since(c.tmarks)
+			d := map[string]interface{}{"case": c.desc, "error": c.err.Error(), "callback_invocations_for_this_payload": calls,
+				"datagrams_received_by_responder": x.reqs, "answers_sent": x.answers, "answers_sent_carrying_data": x.answersWithData}
+			switch {
+			case calls > 0 && x.answersWithData > 0:
+				rec.Violation("exchange:"+reqClass+":requester-refuses-response-encoded-and-sent-without-error",
+					"the responder encrypted, framed and sent the callback's value without an error, but RequestAndRecv could not decode it", d)
+				return
+			case calls == 0 && x.reqs > 0:
+				rec.Violation("exchange:"+reqClass+":responder-refuses-request-encoded-without-error",
+					"the requester encoded and sent the request without an error but the responder could not decode it (its callback never ran)", d)
+				return
+			}
+		}
 		rec.Count("rejected", 1)
 		rec.Count("rejected_"+reqClass, 1)
+		if calls > 0 {
+			rec.Count("rejected_by_responder_side_encoder", 1)
+		} else {
+			rec.Count("rejected_by_requester_side_encoder", 1)
+		}
 		rec.Distinct("nontrivial", c.desc)
 		rec.Distinct("reject_reasons", c15ErrClass(c.err))
 		return
 	}
 	if calls == 0 {
+		c.s.mu.Lock()
+		unknown := c.s.unknown
+		c.s.mu.Unlock()
 		rec.Violation("exchange:result-without-callback:"+reqClass, "RequestAndRecv returned a result although the responder's callback never received this payload (the request was altered on the way, or the result is not the callback's)",
-			map[string]interface{}{"case": c.desc, "result": kit.HexN(c.res, 24), "payload": kit.HexN(c.payload, 24), "unknown_payloads_seen_by_callback": c.s.unknown})
+			map[string]interface{}{"case": c.desc, "result": kit.HexN(c.res, 24), "payload": kit.HexN(c.payload, 24), "unknown_payloads_seen_by_callback": unknown})
 		return
 	}
 	if !bytes.Equal(c.res, c.response) {
@@ -495,32 +621,52 @@ func c15ErrClass(err error) string {
 	return s
 }
 
-// stuck evaluates a call that is still running after the watchdog.
-func (c *c15Call) stuck(rec *kit.Rec, waited time.Duration, parkedStable bool, parked int) {
-	calls := c.callbackCalls()
-	sendDrops := c15Logs.matching("send: ", 4)
-	respDrops := append(c15Logs.matching("dnsRespToUDPResp err", 2), c15Logs.matching("resp WireFormat", 2)...)
-	reqDrops := append(append(c15Logs.matching("RemoveFormat err", 2), c15Logs.matching("craftResponse err", 2)...), c15Logs.matching("NXDOMAIN: base32", 2)...)
-	d := map[string]interface{}{"case": c.desc, "waited": waited.String(), "callback_invocations_for_this_payload": calls,
-		"goroutines_parked_in_RequestAndRecv": parked, "parked_state_stable": parkedStable,
-		"requester_log": sendDrops, "responder_log": append(respDrops, reqDrops...)}
-	switch {
-	case !parkedStable:
-		rec.Inconclusive("call still running after the watchdog but no stable parked state", d)
-	case calls == 0 && len(sendDrops) > 0 && !c.reqFits:
-		rec.Violation("exchange:request-beyond-a-name:never-sent-and-RequestAndRecv-blocks-forever",
-			"a request payload too large for one DNS name is neither refused with an error nor answered: the name encoder's refusal is only logged and RequestAndRecv waits forever", d)
-	case calls == 0 && len(sendDrops) > 0 && c.reqFits:
-		rec.Violation("exchange:request-fits-a-name:never-sent-and-RequestAndRecv-blocks-forever",
-			"a request payload that fits one DNS name was refused by the name encoder (logged only) and RequestAndRecv waits forever", d)
-	case calls == 0 && len(reqDrops) > 0:
-		rec.Violation("exchange:responder-cannot-decode-request-encoded-without-error",
-			"the requester encoded and sent the request without an error but the responder refused it; RequestAndRecv waits forever", d)
-	case calls > 0 && len(respDrops) > 0:
-		rec.Violation("exchange:response-beyond-an-rr:never-sent-and-RequestAndRecv-blocks-forever",
-			"the callback's return value does not fit a DNS resource record; the responder logs the encoder's refusal and sends nothing, RequestAndRecv waits forever", d)
-	default:
-		rec.Inconclusive("call still running after the watchdog, no proof of a dropped datagram (possible UDP loss)", d)
+// c15Stuck evaluates calls (all on the same server) that are still running after the watchdog.  All of them were started
+// after the marks were taken and nothing else used that server since, so what crossed the responder's socket and what was
+// logged since then belongs to them.  "Never sent" is concluded for the calls whose callback never ran only if no datagram
+// beyond those of the calls whose callback did run reached the responder AND the requester logged at least as many refusals of
+// its name encoder as there are such calls; "never answered" only if the responder sent nothing AND logged as many refusals.
+// finishedWithCallback = calls started after the same marks that have returned and whose callback ran: each of them accounts
+// for one received datagram and at most one answer.
+func c15Stuck(rec *kit.Rec, calls []*c15Call, finishedWithCallback int, marks c15Marks, tmarks c15TapMarks, waited time.Duration) {
+	stable, parked := c15ParkedStable(len(calls))
+	var noCallback, withCallback int
+	for _, c := range calls {
+		if c.callbackCalls() == 0 {
+			noCallback++
+		} else {
+			withCallback++
+		}
+	}
+	x := calls[0].s.tap.since(tmarks)
+	sendDrops := c15Logs.since(marks, "send: ")
+	respDrops := c15Logs.since(marks, "dnsRespToUDPResp err")
+	for _, c := range calls {
+		n := c.callbackCalls()
+		d := map[string]interface{}{"case": c.desc, "waited": waited.Round(time.Millisecond).String(), "callback_invocations_for_this_payload": n,
+			"calls_still_running": len(calls), "of_which_callback_never_ran": noCallback, "calls_of_the_same_batch_that_returned_after_their_callback_ran": finishedWithCallback,
+			"goroutines_parked_in_RequestAndRecv": parked, "parked_state_stable": stable,
+			"datagrams_received_by_responder_since_start": x.reqs, "answers_sent_by_responder_since_start": x.answers,
+			"requester_name_encoder_refusals_logged_since_start": sendDrops, "responder_answer_encoder_refusals_logged_since_start": respDrops,
+			"requester_log": c15Logs.last("send: ", 3), "responder_log": append(c15Logs.last("dnsRespToUDPResp err", 2), c15Logs.last("RemoveFormat err", 2)...)}
+		switch {
+		case !stable:
+			rec.Inconclusive("call still running after the watchdog but no stable parked state", d)
+		case n == 0 && x.reqs <= withCallback+finishedWithCallback && sendDrops >= noCallback:
+			rec.Violation("exchange:"+c.reqClass()+":never-sent-and-RequestAndRecv-blocks-forever",
+				"the request was refused by the requester's name encoder, but the refusal is only logged: RequestAndRecv neither returns an error nor an answer", d)
+		case n == 0 && x.reqs >= len(calls)+finishedWithCallback && finishedWithCallback == 0:
+			rec.Violation("exchange:"+c.reqClass()+":responder-refuses-request-encoded-without-error",
+				"the requester encoded and sent the request without an error but the responder could not decode it (its callback never ran); RequestAndRecv waits forever", d)
+		case n > 0 && x.answers <= finishedWithCallback && respDrops >= withCallback:
+			rec.Violation("exchange:response-beyond-an-rr:never-sent-and-RequestAndRecv-blocks-forever",
+				"the callback's return value does not fit a DNS resource record; the responder only logs its encoder's refusal and sends nothing, RequestAndRecv waits forever", d)
+		case n > 0 && x.answersWithData >= withCallback+finishedWithCallback:
+			rec.Violation("exchange:"+c.reqClass()+":requester-drops-response-encoded-and-sent-without-error",
+				"the responder sent an answer carrying the callback's value but the requester never delivered it; RequestAndRecv waits forever", d)
+		default:
+			rec.Inconclusive("call still running after the watchdog, no proof of where the datagram was dropped (possible UDP loss)", d)
+		}
 	}
 }
 
@@ -553,73 +699,62 @@ func c15Payload(rng *mrand.Rand, n int) []byte {
 	return p
 }
 
+func c15Capacity(domain dns.Name) int {
+	if !c15FitsName(c15NoiseOverhead, domain) {
+		return -1
+	}
+	n := 0
+	for c15FitsName(c15NoiseOverhead+n+1, domain) {
+		n++
+	}
+	return n
+}
+
 func TestVerifC15Exchange(t *testing.T) {
 	log.SetOutput(c15Logs)
 	rec := kit.NewRec("C15", "exchange")
 	defer rec.Close()
 	rng := kit.Rand("c15exchange")
+	t0 := time.Now()
 
 	doms := c15Domains()
 	servers := map[string]*c15Server{}
 	for _, d := range doms {
 		servers[d] = c15StartServer(t, d)
 	}
-	main := servers[doms[0]]
 
-	// ---- batch of calls beyond the limits, each on its own requester, all started now and judged after the watchdog -----
-	batchStart := time.Now()
-	var batch []*c15Call
-	capacity := 0 // largest request payload that fits a name under the main domain
-	for c15FitsName(c15NoiseOverhead+capacity+1, main.domain) {
-		capacity++
-	}
-	for _, n := range []int{capacity + 1, capacity + 2, capacity + 7, 150, 206, 207, 208, 255, 256, 300, 1000, 4000, 65535 - 48, 65535 - 47, 65536, 70000} {
-		p := c15Payload(rng, n)
-		batch = append(batch, main.start(main.newRequester(t), fmt.Sprintf("batch domain=%q request=%d response=16 (request beyond one name)", main.dom, n), p, c15Payload(rng, 16)))
-	}
-	for _, n := range []int{65000, 65200, 65300, 65519, 65520, 65535, 65536, 70000} {
-		p := c15Payload(rng, 24)
-		batch = append(batch, main.start(main.newRequester(t), fmt.Sprintf("batch domain=%q request=24 response=%d (response beyond one RR)", main.dom, n), p, c15Payload(rng, n)))
-	}
-
-	// ---- sequential sweep ---------------------------------------------------------------------------------------------------
+	// ---- sequential sweep: one call in flight at a time, so every logged drop belongs to the call that is running --------
 	stuckN := 0
 	run := func(s *c15Server, rq **requester.Requester, reqLen, respLen int, note string) {
-		if stuckN >= 2 {
+		if stuckN >= 2 { // two calls that never return are enough evidence; each costs a full watchdog
 			return
 		}
 		p, resp := c15Payload(rng, reqLen), c15Payload(rng, respLen)
-		if reqLen <= 2 { // keep tiny payloads distinct from earlier ones of the same length
-			s.mu.Lock()
-			delete(s.expected, string(p))
-			s.mu.Unlock()
-		}
 		desc := fmt.Sprintf("domain=%q request=%d response=%d %s", s.dom, reqLen, respLen, note)
 		rec.Case(desc)
 		rec.Count("evaluations", 1)
 		c := s.start(*rq, desc, p, resp)
 		if c.finished(c15Watchdog) {
-			c.judge(rec)
+			c.judge(rec, true)
 			s.mu.Lock()
 			delete(s.expected, string(p))
 			s.mu.Unlock()
 			return
 		}
-		stable, parked := c15ParkedStable(1)
-		c.stuck(rec, c15Watchdog, stable, parked)
+		c15Stuck(rec, []*c15Call{c}, 0, c.marks, c.tmarks, c15Watchdog)
 		stuckN++
+		old := *rq
 		*rq = s.newRequester(t) // the old one has a reader parked on its queue
+		old.Close()
+		c.finished(10 * time.Second)
 	}
 
-	for _, d := range doms {
+	for di, d := range doms {
 		s := servers[d]
 		rq := s.newRequester(t)
-		cap := 0
-		for c15FitsName(c15NoiseOverhead+cap+1, s.domain) {
-			cap++
-		}
+		capacity := c15Capacity(s.domain)
 		// every request length from 0 to the capacity of one name
-		for n := 0; n <= cap; n++ {
+		for n := 0; n <= capacity; n++ {
 			run(s, &rq, n, (n*13)%600, "reused-requester")
 			if n%16 == 5 {
 				fresh := s.newRequester(t)
@@ -629,50 +764,63 @@ func TestVerifC15Exchange(t *testing.T) {
 		// every response length from 0 to beyond what a UDP answer can carry (answers beyond are replaced by an empty answer,
 		// which the requester must turn into an error)
 		step := 1
-		if d != doms[0] && !kit.Thorough() {
+		if di != 0 && !kit.Thorough() {
 			step = 9
 		}
 		for n := 0; n <= 1400; n += step {
-			run(s, &rq, 20+n%50, n, "reused-requester")
+			run(s, &rq, (20+n%50)%(capacity+1), n, "reused-requester")
 		}
 		for _, n := range []int{2000, 4000, 4078, 4079, 4080, 4094, 4095, 4096, 5000, 16384, 40000, 64000} {
 			run(s, &rq, 30, n, "reused-requester")
 		}
 	}
+	t.Logf("sweep done after %v, calls that never returned: %d", time.Since(t0).Round(time.Millisecond), stuckN)
 	// seeded pairs
-	for i, n := 0, kit.Tier(400, 20000); i < n; i++ {
+	rqs := map[string]*requester.Requester{}
+	for i, n := 0, kit.Tier(3000, 120000); i < n; i++ {
 		s := servers[doms[rng.Intn(len(doms))]]
-		rq := s.newRequester(t)
-		for k := 0; k < 8; k++ {
-			run(s, &rq, rng.Intn(110), rng.Intn(1300), "seeded")
+		if rqs[s.dom] == nil || i%500 == 0 {
+			rqs[s.dom] = s.newRequester(t)
 		}
+		rq := rqs[s.dom]
+		run(s, &rq, rng.Intn(c15Capacity(s.domain)+1), rng.Intn(1300), "seeded")
+		rqs[s.dom] = rq
 	}
-	rec.Exhaustive("request payload lengths 0..capacity of one name × 5 base domains; response payload lengths 0..1400 (main domain: every length)")
+	t.Logf("seeded pairs done after %v, calls that never returned: %d", time.Since(t0).Round(time.Millisecond), stuckN)
+	rec.Exhaustive("request payload lengths 0..capacity of one name × 5 base domains; response payload lengths 0..1400 (first domain: every length)")
 
-	// ---- judge the batch ------------------------------------------------------------------------------------------------------
-	if rest := c15Watchdog - time.Since(batchStart); rest > 0 {
-		// only wait if something is still running
-		for _, c := range batch {
-			if !c.finished(0) {
-				time.Sleep(rest)
-				break
-			}
-		}
+	// ---- calls beyond the limits, each on its own requester, all started together and judged after one watchdog ---------------
+	main := servers[doms[0]]
+	capacity := c15Capacity(main.domain)
+	batchMarks, batchTapMarks := c15Logs.marks(), main.tap.marks()
+	batchStart := time.Now()
+	var batch []*c15Call
+	for _, n := range []int{capacity + 1, capacity + 2, capacity + 7, 150, 206, 207, 208, 255, 256, 300, 1000, 4000, 65535 - 48, 65535 - 47, 65536, 70000} {
+		desc := fmt.Sprintf("domain=%q request=%d response=16 own-requester (request beyond one name)", main.dom, n)
+		rec.Case(desc)
+		batch = append(batch, main.start(main.newRequester(t), desc, c15Payload(rng, n), c15Payload(rng, 16)))
+	}
+	for _, n := range []int{65000, 65200, 65300, 65519, 65520, 65535, 65536, 70000} {
+		desc := fmt.Sprintf("domain=%q request=24 response=%d own-requester (response beyond one RR)", main.dom, n)
+		rec.Case(desc)
+		batch = append(batch, main.start(main.newRequester(t), desc, c15Payload(rng, 24), c15Payload(rng, n)))
 	}
 	var running []*c15Call
+	finishedWithCallback := 0
 	for _, c := range batch {
 		rec.Count("evaluations", 1)
-		if c.finished(0) {
-			c.judge(rec)
+		rest := c15Watchdog - time.Since(batchStart)
+		if c.finished(rest) {
+			c.judge(rec, false)
+			if c.callbackCalls() > 0 {
+				finishedWithCallback++
+			}
 		} else {
 			running = append(running, c)
 		}
 	}
 	if len(running) > 0 {
-		stable, parked := c15ParkedStable(len(running))
-		for _, c := range running {
-			c.stuck(rec, time.Since(batchStart), stable, parked)
-		}
+		c15Stuck(rec, running, finishedWithCallback, batchMarks, batchTapMarks, time.Since(batchStart))
 		for _, c := range running { // release the parked readers
 			c.rq.Close()
 		}
